@@ -35,6 +35,46 @@ pub struct EncOpts {
     pub omit_top_index: Option<u32>,
     /// Replace the top-level variant index (negative test).
     pub force_variant_index: Option<u32>,
+    /// Omit a mandatory field of a *nested* value (see `encode_omit_nested`).
+    pub omit_nested: bool,
+}
+
+thread_local! {
+    static NESTED_TARGET: std::cell::Cell<i64> = const { std::cell::Cell::new(-1) };
+}
+
+/// Encode `v` with a mandatory field missing from the `k`-th nested struct / variant body (in
+/// traversal order) that has one; `None` if there are not that many.
+pub fn encode_omit_nested(reg: &Registry, s: &TypeSchema, v: &View, k: u32) -> Option<Item> {
+    NESTED_TARGET.with(|c| c.set(k as i64));
+    let it = encode_type(reg, s, v, &EncOpts { omit_nested: true, ..Default::default() });
+    let left = NESTED_TARGET.with(|c| c.replace(-1));
+    if left < 0 {
+        Some(it)
+    } else {
+        None
+    }
+}
+
+/// The index of a mandatory field whose omission from the encoding of `view` makes the value
+/// undecodable (map: any mandatory field; array: only the highest present index can be "missing").
+pub fn victim(schema: &TypeSchema, view: &View) -> Option<u32> {
+    let (fields, vals, encoding) = match (&schema.kind, view) {
+        (Kind::Struct { fields, encoding, transparent: false }, View::Struct(v)) => (fields, v, *encoding),
+        (Kind::Enum { variants, index_only: false }, View::Enum(k, v)) if !variants[*k].unit => (&variants[*k].fields, v, variants[*k].encoding),
+        _ => return None,
+    };
+    let mandatory = |f: &FieldSchema| !f.skip && !matches!(f.ty, Ty::Opt(_) | Ty::NilU32 | Ty::Tri);
+    match encoding {
+        Encoding::Map => fields.iter().filter(|f| mandatory(f)).map(|f| f.index).next(),
+        Encoding::Array => {
+            let top = fields.iter().zip(vals.iter()).filter(|(f, v)| !f.skip && !is_nil(&f.ty, v)).max_by_key(|(f, _)| f.index);
+            match top {
+                Some((f, _)) if mandatory(f) => Some(f.index),
+                _ => None,
+            }
+        }
+    }
 }
 
 pub fn is_nil(ty: &Ty, v: &View) -> bool {
@@ -60,7 +100,21 @@ pub fn encode_ty(reg: &Registry, ty: &Ty, v: &View, o: &EncOpts) -> Item {
         (Ty::Opt(t), View::Some(x)) => encode_ty(reg, t, x, o),
         (Ty::Vec(t), View::Seq(xs)) => mark(M_COLL, Item::array(xs.iter().map(|x| encode_ty(reg, t, x, o)).collect())),
         (Ty::Map(k, t), View::Map(xs)) => mark(M_COLL, Item::map(xs.iter().map(|(a, b)| (encode_ty(reg, k, a, o), encode_ty(reg, t, b, o))).collect())),
-        (Ty::Named(n), x) => encode_type(reg, &reg[n], x, &EncOpts { omit_top_index: None, force_variant_index: None, ..*o }),
+        (Ty::Named(n), x) => {
+            let sch = &reg[n];
+            // negative test: omit a mandatory field of the k-th nested value that has one
+            let mut omit = None;
+            if o.omit_nested {
+                if let Some(idx) = if sch.loose { None } else { victim(sch, x) } {
+                    let left = NESTED_TARGET.with(|c| c.get());
+                    if left == 0 {
+                        omit = Some(idx);
+                    }
+                    NESTED_TARGET.with(|c| c.set(left - 1));
+                }
+            }
+            encode_type(reg, sch, x, &EncOpts { omit_top_index: omit, force_variant_index: None, ..*o })
+        }
         (Ty::Tagged(n, t), x) => Item::tag(*n, encode_ty(reg, t, x, o)),
         (Ty::Tri, View::U(0)) => Item::undefined(),
         (Ty::Tri, View::U(1)) => Item::null(),
